@@ -15,8 +15,10 @@ import (
 	"reflect"
 	"regexp"
 	"sort"
+	"strconv"
 	"strings"
 	"time"
+	"unicode"
 
 	ucfg "github.com/elastic/go-ucfg"
 
@@ -56,19 +58,23 @@ const defectEvery = 80
 const valuesPerCase = 3
 
 func (check) Rule() string {
-	return "per case one struct type and 3 values of it (thorough: 4 consecutive cases share the type, so the runtime's permanent reflect.StructOf cache stays small): a reflect.StructOf struct of 1-6 fields, depth <= 3, over bool, all int/uint/float kinds, string, time.Duration, *regexp.Regexp, pointers (also to pointers), slices, arrays [1..3]T, map[string]T, interface{}, nested structs by value/pointer/in collections, hand-written named types (Level string, Count int32, Ratio float64, Flag bool, Octets []uint8, Labels map[string]string, structs Endpoint/Hidden/Mixed/Opaque/Wrapped with tags, embedded and unexported fields); tags: none, rename, dotted (shared parents, prefix-free), ignore (also on chan/func/map[int]/complex fields), inline/squash on struct fields (own names disjoint from the siblings'), inline map as the only transported field, merge-option tags, foreign tag keys; one namespace spelled by 2-3 fields of one struct at any nesting level (about every 11th field starts such a group: struct fields by value or pointer with the same renamed or lower-cased name, the same wrapped in an inline struct, dotted names leading into the namespace - also one that is itself a struct -, [L]struct fields of one length plus dotted names through an index; the spellings come in random order, define disjoint settings and share 0-2 sub-namespaces that are spelled the same way again, up to 3 levels); values: zero, extreme and random numbers, NaN/Inf/-0, durations incl. Min/MaxInt64, regexps, strings with $ . , braces, nil/empty/filled collections, nil pointers and chains ending in nil outside collections. Each value enters as NewFrom(v), NewFrom(&v) or New().Merge(v) and is round-tripped with PathSep(\".\") and, if the type has no dotted tag name, without it; the zero value of every type is round-tripped too. Every 80th type deliberately contains one legal shape with a known defect (in turn: inline map next to named fields; non-nil *[N]T; *map as list/map element; map keyed by a named string type). Non-trivial = the type transports >= 3 fields (nested ones counted) or >= 1 container; distinct = distinct (type, value) text."
+	return "per case one struct type and 3 values of it (thorough: 4 consecutive cases share the type, so the runtime's permanent reflect.StructOf cache stays small): a reflect.StructOf struct of 1-6 fields, depth <= 3, over bool, all int/uint/float kinds and uintptr, string, time.Duration, *regexp.Regexp and regexp.Regexp by value, pointers and chains of 2-4 pointers (to structs too; as fields, elements and map values; the extra levels do not use up depth), slices, arrays [1..3]T, map[string]T, interface{}, nested structs by value/pointer/in collections, hand-written named types (Level string, Count int32, Ratio float64, Flag bool, Octets []uint8, Labels map[string]string, structs Endpoint/Hidden/Mixed/Opaque/Wrapped with tags, embedded and unexported fields); tags: none, rename (one in four to an unusual name, unique at its level: \"-\", \"--\", \"_\", \"*\", punctuation, blanks, \"${a}\", upper case, Cyrillic, the option words inline/ignore/squash/merge/replace/append as names), dotted (shared parents, prefix-free, unusual leaf names too), ignore (also on chan/func/map[int]/complex fields), inline/squash on struct fields (own names disjoint from the siblings'; one in five through a pointer or two, nil or not), inline map - or pointer to map - as the only transported field, one slice or array tagged inline per namespace, two pointer fields renamed to the same name (one of them always nil), merge-option tags, foreign tag keys; one namespace spelled by 2-3 fields of one struct at any nesting level (about every 11th field starts such a group: struct fields by value or pointer with the same renamed or lower-cased name, the same wrapped in an inline struct, dotted names leading into the namespace - also one that is itself a struct -, [L]struct fields of one length plus dotted names through an index; the spellings come in random order, define disjoint settings and share 0-2 sub-namespaces that are spelled the same way again, up to 3 levels); values: zero, extreme and random numbers, NaN/Inf/-0, durations incl. Min/MaxInt64, regexps, strings with $ . , braces, nil/empty/filled collections, nil pointers and chains ending in nil outside collections. Each value enters as NewFrom(v), NewFrom(&v) or New().Merge(v) and is round-tripped with PathSep(\".\") and, if the type has no dotted tag name, without it; the zero value of every type is round-tripped too. Every 80th type deliberately contains one legal shape with a known or former defect (in turn: inline map next to named fields; non-nil *[N]T; *map as list/map element; map keyed by a named string type; a hand-written named pointer type NPInt *int, NPEndpoint *Endpoint, NPList *[]string, NPMap *map[string]int, NPBytes **uint8 as field, behind a pointer, as element or map value - Unpack into those runs under an allocation bound). One in five pointer spellings of a shared namespace is nil. Map keys contain the separator one time in eight if the type has no dotted name (the value is then round-tripped without PathSep only). Each case also hands one small struct holding a kind without configuration form (complex64/128, chan, func; as field, behind a pointer, in a slice, array, map, nested struct or interface) to NewFrom and, if accepted, to Unpack: no panic, nothing else claimed. Non-trivial = the type transports >= 3 fields (nested ones counted) or >= 1 container; distinct = distinct (type, value) text."
 }
 
 func (check) Assumptions() []string {
 	return []string{
-		"equality is the property's: nil == empty for slices and maps, NaN == NaN (other floats bit-exact), *regexp.Regexp by source text, pointers by pointee with a chain ending in nil equal to nil, interface{} fields by model.CanonIfc (numbers by value, nil == {} == [])",
+		"equality is the property's: nil == empty for slices and maps, NaN == NaN (other floats bit-exact), regular expressions by source text (compile modes - POSIX, Longest - are not part of the expression the Config holds: not pinned, not generated), pointers level by level (a pointer to a nil pointer is not nil: the statement exempts nil pointers as elements only), interface{} fields by model.CanonIfc (numbers by value, nil == {} == [])",
+		"a pointer tagged inline has no setting of its own that could say it was nil: nil and pointer-to-zero-value (empty map) are equal there, like the statement grants for nil elements; for the same reason an inlined pointer's struct holds no inlined array",
+		"kinds without a configuration form (complex, chan, func) make a struct type unsupported: Merge may refuse or transport them, only a panic is reported; uintptr is an unsigned integer kind and Unpack accepts it, so it is transported like uint",
+		"two fields of one name: Merge may refuse the type as a duplicate key whatever the values are (nothing claimed then, C09 owns that rule); if it accepts a value, the round trip must be the identity",
 		"fields tagged ignore and unexported fields are not transported: they are not compared with the source but must be zero in the result",
-		"not generated (outside the quantifier): nil pointers / nil interfaces as list or map elements, arrays directly as map values, pointers to interface{}, inline on pointer-to-struct fields, regexp.Regexp by value; map keys never contain the separator and never parse as integers (C05/C20)",
+		"not generated (outside the quantifier): nil pointers / nil interfaces (and pointer chains ending in nil) as list or map elements, arrays directly as map values, pointers to interface{}; map keys never parse as integers - in any base strconv.ParseInt(s, 0, 64) reads, with sign or underscores - because those are list positions (C20), and contain the separator only where no PathSep is given (with PathSep keys are paths: C05); types with InitDefaults, Validate or Unpack methods (C04/C13), Config fields by value, values nested deeper than 10000 levels (Merge's documented bound, C07)",
 		"the untagged field name is the lower-cased Go field name; the names of the intermediate Config are checked against the names derived from type and value, level by level through structs and lists of structs, not below maps and interfaces (this is what makes a merge-side-only and an unpack-side-only naming rule distinguishable); a name whose only definition is a nil pointer or nil interface may be present or absent",
-		"several fields spelling one namespace: only with disjoint settings (a setting defined twice is a duplicate key, C09), never as a nil pointer (Unpack allocates the pointer for the other spellings' settings), never as a map or an inline map (it would receive the other spellings' settings: the open inline-map question), lists only as arrays of one length (a slice would come back with the longest length); signatures of deviations below such a namespace carry shared-ns / shared-namespace",
+		"several fields spelling one namespace: only with disjoint settings (a setting defined twice is a duplicate key, C09), as a nil pointer only if the struct holds no fixed-size array (Unpack allocates the pointer for the other spellings' settings - reported as nil-pointer-spelling-comes-back-allocated - and would fail on the array), never as a map or an inline map (it would receive the other spellings' settings: the open inline-map question), lists only as arrays of one length (a slice would come back with the longest length); signatures of deviations below such a namespace carry shared-ns / shared-namespace",
 		"VarExp off: '$' in strings is data",
 		"an empty map or list held by an interface{} map entry comes back as an absent entry: equal, by nil == empty and CanonIfc's absent == nil",
-		"a failure is attributed to a known shape only by a differential re-run: the same Config unpacks into the type with *[N]T replaced by *[]T (resp. element *map by map, map[Level]T by map[string]T)",
+		"a failure is attributed to a known shape only by a differential re-run: the same Config unpacks into the type with *[N]T replaced by *[]T (resp. element *map by map, map[Level]T by map[string]T), or the smallest struct showing a shape of the type (uintptr field, regexp.Regexp by value passed by value, inlined list, nil / non-nil inlined pointer, []**struct) fails in the same step in the same way (panic or error)",
+		"an Unpack that allocates more than 192 MB without returning can not be stopped; the worker is given up with a 'fatal error:' line, which the supervisor files under the case as fatal:unpack-into-named-pointer-type-allocates-without-bound",
 	}
 }
 
@@ -117,6 +123,8 @@ type Wrapped struct {
 }
 
 var (
+	tRegexpV  = reflect.TypeOf(regexp.Regexp{})
+	tUintptr  = reflect.TypeOf(uintptr(0))
 	tIfc      = reflect.TypeOf((*interface{})(nil)).Elem()
 	tString   = reflect.TypeOf("")
 	tDuration = reflect.TypeOf(time.Duration(0))
@@ -203,14 +211,25 @@ const (
 	defPtrArray
 	defPtrMapElem
 	defNamedKey
+	defNamedPtr
 )
 
-var defectNames = []string{"none", "inline-map-with-siblings", "pointer-to-array", "pointer-to-map-element", "named-string-map-key"}
+var defectNames = []string{"none", "inline-map-with-siblings", "pointer-to-array", "pointer-to-map-element", "named-string-map-key", "named-pointer-type"}
 
 type namespace struct {
-	pool []string
-	lib  map[reflect.Type]bool
+	pool    []string
+	lib     map[reflect.Type]bool
+	odd     []string // unusual names not used yet at this level
+	hasList bool     // a slice or array is inlined at this level already
 }
+
+// oddNames: renames that are names like any other for the library, but look
+// like something else: punctuation only, the option words, what encoding/json
+// reads as "skip", wildcards, variable syntax, blanks, upper case.
+var oddNames = []string{"-", "--", "_", "*", "**", "$x", "${a}", " ", "with space", "UPPER", "ключ", "a\tb", "#", "@", "~", "!", "%", "&", "|", "=", "<>", "?", "/", "'", ":", ";", "(", "{}", "[", "]", "inline", "ignore", "squash", "merge", "replace", "append", "-x", "+", "^"}
+
+// cfgTag spells the config key of a struct tag.
+func cfgTag(value string) string { return "config:" + strconv.Quote(value) }
 
 type tgen struct {
 	r      *rand.Rand
@@ -218,6 +237,7 @@ type tgen struct {
 	defect int
 	forms  map[string]struct{}
 	shapes map[string]struct{}
+	odd    map[string]struct{}
 }
 
 func (g *tgen) form(s string)  { g.forms[s] = struct{}{} }
@@ -228,7 +248,31 @@ func (g *tgen) newNS() *namespace {
 	for i, j := range g.r.Perm(len(fieldPool)) {
 		p[i] = fieldPool[j]
 	}
-	return &namespace{pool: p, lib: map[reflect.Type]bool{}}
+	odd := make([]string, len(oddNames))
+	for i, j := range g.r.Perm(len(oddNames)) {
+		odd[i] = oddNames[j]
+	}
+	if g.r.Intn(5) == 0 {
+		// "-" (what encoding/json and yaml read as "skip this field") comes first more often
+		for i, n := range odd {
+			if n == "-" {
+				odd[0], odd[i] = odd[i], odd[0]
+			}
+		}
+	}
+	return &namespace{pool: p, lib: map[reflect.Type]bool{}, odd: odd}
+}
+
+// oddName takes an unusual name, unique at its level (one time in four).
+func (g *tgen) oddName(ns *namespace) (string, bool) {
+	if len(ns.odd) == 0 || g.r.Intn(4) != 0 {
+		return "", false
+	}
+	n := ns.odd[0]
+	ns.odd = ns.odd[1:]
+	g.form("rename-odd")
+	g.odd[n] = struct{}{}
+	return n, true
 }
 
 func chaseT(t reflect.Type) reflect.Type {
@@ -250,7 +294,14 @@ func (g *tgen) genType(depth, pos int) reflect.Type {
 	case k < 5:
 		return g.prim()
 	case k == 5:
-		return namedLeaf[r.Intn(len(namedLeaf))]
+		switch x := r.Intn(len(namedLeaf) + 2); {
+		case x == len(namedLeaf):
+			return tUintptr // an unsigned integer kind like the others
+		case x == len(namedLeaf)+1:
+			return tRegexpV // a regular expression held by value
+		default:
+			return namedLeaf[x]
+		}
 	case k == 6:
 		et := g.genType(depth-1, posPtr)
 		if et.Kind() == reflect.Interface {
@@ -264,17 +315,28 @@ func (g *tgen) genType(depth, pos int) reflect.Type {
 		if (pos == posElem || pos == posMapVal) && chaseT(et).Kind() == reflect.Map {
 			return chaseT(et) // *map as an element: known defect, injected separately
 		}
-		return reflect.PtrTo(et)
+		// pointers to pointers (to pointers) do not use up the nesting depth:
+		// they are reached as elements of collections and behind structs too
+		pt := reflect.PtrTo(et)
+		odds := 3
+		if (pos == posElem || pos == posMapVal) && chaseT(et).Kind() == reflect.Struct {
+			odds = 2 // what a fresh struct is unpacked into and stored as an element
+		}
+		for n := 0; n < 2 && et.Kind() != reflect.Array && r.Intn(odds) == 0; n++ {
+			pt = reflect.PtrTo(pt)
+			g.shape(fmt.Sprintf("pointer-chain:%d+", n+2))
+		}
+		return pt
 	case k == 7:
-		return reflect.SliceOf(g.genType(depth-1, posElem))
+		return reflect.SliceOf(g.elemType(depth-1, posElem))
 	case k == 8:
-		et := g.genType(depth-1, posElem)
+		et := g.elemType(depth-1, posElem)
 		if pos == posMapVal {
 			return reflect.SliceOf(et) // arrays directly as map values: excluded by the property
 		}
 		return reflect.ArrayOf(1+r.Intn(3), et)
 	case k == 9:
-		return reflect.MapOf(tString, g.genType(depth-1, posMapVal))
+		return reflect.MapOf(tString, g.elemType(depth-1, posMapVal))
 	case k == 10:
 		return tIfc
 	case k == 11:
@@ -287,11 +349,36 @@ func (g *tgen) genType(depth, pos int) reflect.Type {
 	}
 }
 
+// elemType: the element type of a collection; one time in eight a chain of
+// 2-3 pointers to a struct, whatever depth is left.
+func (g *tgen) elemType(depth, pos int) reflect.Type {
+	r := g.r
+	if r.Intn(8) != 0 {
+		return g.genType(depth, pos)
+	}
+	var st reflect.Type
+	if depth <= 0 || r.Intn(3) == 0 {
+		st = libStructs[r.Intn(len(libStructs))]
+	} else {
+		st = reflect.StructOf(g.genFields(depth-1, g.newNS(), 1+r.Intn(3)))
+	}
+	g.shape("pointer-chain-to-struct-as-element")
+	t := reflect.PtrTo(reflect.PtrTo(st))
+	if r.Intn(3) == 0 {
+		t = reflect.PtrTo(t)
+	}
+	return t
+}
+
 // mapHolder: a struct whose only transported field is an inline map.
 func (g *tgen) mapHolder(depth int) reflect.Type {
 	var fs []reflect.StructField
 	fs = append(fs, reflect.StructField{Name: "Im", Type: reflect.MapOf(tString, g.genType(depth, posMapVal)), Tag: `config:",inline"`})
 	g.form("inline-map-alone")
+	if g.defect == defNone && g.r.Intn(4) == 0 {
+		g.form("inline-pointer-to-map-alone")
+		fs[0].Type = reflect.PtrTo(fs[0].Type)
+	}
 	for i, n := 0, g.r.Intn(3); i < n; i++ {
 		fs = append(fs, reflect.StructField{Name: fmt.Sprintf("Ig%c", 'a'+i), Type: g.prim(), Tag: `config:",ignore"`})
 	}
@@ -309,12 +396,45 @@ func (g *tgen) genFields(depth int, ns *namespace, n int) []reflect.StructField 
 		name := ns.pool[0]
 		ns.pool = ns.pool[1:]
 		f := reflect.StructField{Name: name}
-		c := r.Intn(23)
+		c := r.Intn(25)
 		if (c == 15 || c == 16 || c == 19 || c >= 21) && depth <= 0 {
 			c = 0
 		}
 		if c >= 21 && g.defect != defNone {
 			c = 1 // the types carrying a known-defect shape stay as they were
+		}
+		if c == 23 && ns.hasList {
+			c = 2
+		}
+		if c == 23 {
+			// a slice or array tagged inline: its elements are the elements of
+			// the enclosing namespace itself (one such list per namespace)
+			ns.hasList = true
+			f.Tag = reflect.StructTag(cfgTag("," + []string{"inline", "squash"}[r.Intn(2)]))
+			et := g.genType(depth-1, posElem)
+			if r.Intn(3) == 0 {
+				g.form("inline-array")
+				f.Type = reflect.ArrayOf(1+r.Intn(3), et)
+			} else {
+				g.form("inline-slice")
+				f.Type = reflect.SliceOf(et)
+			}
+			fs = append(fs, f)
+			continue
+		}
+		if c == 24 {
+			// two pointer fields renamed to one and the same name: they can
+			// not both hold a value (duplicate key), but one of them can
+			g.form("same-name-twins")
+			tag := cfgTag("t" + name)
+			a := reflect.StructField{Name: name, Type: reflect.PtrTo(g.prim()), Tag: reflect.StructTag(tag + ` verif:"twin-set"`)}
+			b := reflect.StructField{Name: name + "2", Type: a.Type, Tag: reflect.StructTag(tag + ` verif:"twin-nil"`)}
+			if r.Intn(2) == 0 {
+				a, b = b, a
+			}
+			fs = append(fs, a)
+			later = append(later, []reflect.StructField{b})
+			continue
 		}
 		if c >= 21 {
 			// 2-3 fields of this struct spell one and the same namespace; they are
@@ -332,11 +452,18 @@ func (g *tgen) genFields(depth int, ns *namespace, n int) []reflect.StructField 
 		case c <= 9:
 			g.form("rename")
 			f.Tag = reflect.StructTag(fmt.Sprintf(`config:"n%s"`, name))
+			if odd, ok := g.oddName(ns); ok {
+				f.Tag = reflect.StructTag(cfgTag(odd))
+			}
 			f.Type = g.genType(depth, posField)
 		case c <= 12:
 			g.form("dotted")
 			g.dotted = true
-			f.Tag = reflect.StructTag(fmt.Sprintf(`config:"%s.l%s"`, dottedParents[r.Intn(len(dottedParents))], name))
+			leaf := "l" + name
+			if odd, ok := g.oddName(ns); ok {
+				leaf = odd
+			}
+			f.Tag = reflect.StructTag(cfgTag(dottedParents[r.Intn(len(dottedParents))] + "." + leaf))
 			f.Type = g.genType(depth, posField)
 		case c <= 14:
 			f.Tag = `config:",ignore"`
@@ -364,6 +491,16 @@ func (g *tgen) genFields(depth int, ns *namespace, n int) []reflect.StructField 
 			} else if len(ns.pool) > 0 {
 				g.form(word + "-struct")
 				f.Type = reflect.StructOf(g.genFields(depth-1, ns, 1+r.Intn(3)))
+				if g.defect == defNone && r.Intn(5) == 0 && !fieldHas(f.Type, isInlineKind(reflect.Array), 0) {
+					// inlined through a pointer (or two); a nil one comes back
+					// as a pointer to the zero value, which an inlined array
+					// inside could not be read for (no elements)
+					g.form(word + "-pointer-to-struct")
+					f.Type = reflect.PtrTo(f.Type)
+					if r.Intn(3) == 0 {
+						f.Type = reflect.PtrTo(f.Type)
+					}
+				}
 			} else {
 				f.Tag = ""
 				g.form("none")
@@ -406,6 +543,13 @@ func (g *tgen) genFields(depth int, ns *namespace, n int) []reflect.StructField 
 const spellKey, spellVal = "verif", "spelling"
 
 func isSpelling(f reflect.StructField) bool { return f.Tag.Get(spellKey) == spellVal }
+
+// nilSpelling: a pointer spelling that may be nil. Unpack allocates it for the
+// other spellings' settings (reported); if the struct held a fixed-size array
+// that allocation would fail for want of elements and hide everything else.
+func nilSpelling(f reflect.StructField) bool {
+	return isSpelling(f) && f.Type.Kind() == reflect.Ptr && !typeHas(f.Type, func(t reflect.Type) bool { return t.Kind() == reflect.Array }, 0)
+}
 
 // shared builds k spellings of one namespace named after base. Spelling i is
 // the list of fields result[i], to be placed into holder struct i: for a group
@@ -558,9 +702,13 @@ func prefixFields(fs []reflect.StructField, prefix, goPrefix string) ([]reflect.
 			cfg, has := f.Tag.Lookup("config")
 			parts := strings.Split(cfg, ",")
 			parts[0] = prefix + name
-			now := `config:"` + strings.Join(parts, ",") + `"`
+			now := cfgTag(strings.Join(parts, ","))
 			if has {
-				f.Tag = reflect.StructTag(strings.Replace(string(f.Tag), `config:"`+cfg+`"`, now, 1))
+				was := cfgTag(cfg)
+				if !strings.Contains(string(f.Tag), was) {
+					return nil, false
+				}
+				f.Tag = reflect.StructTag(strings.Replace(string(f.Tag), was, now, 1))
 			} else {
 				f.Tag = reflect.StructTag(strings.TrimSpace(now + " " + string(f.Tag)))
 			}
@@ -675,6 +823,28 @@ func (g *tgen) topType() reflect.Type {
 			c = reflect.StructOf([]reflect.StructField{{Name: "X", Type: c, Tag: `config:"x"`}})
 		}
 		inject(c)
+	case defNamedPtr:
+		base := namedPtrs[r.Intn(len(namedPtrs))]
+		switch r.Intn(7) {
+		case 0, 1:
+			g.shape("named-pointer:field")
+			inject(base)
+		case 2:
+			g.shape("named-pointer:*P-field")
+			inject(reflect.PtrTo(base))
+		case 3:
+			g.shape("named-pointer:[]P")
+			inject(reflect.SliceOf(base))
+		case 4:
+			g.shape("named-pointer:map[string]P")
+			inject(reflect.MapOf(tString, base))
+		case 5:
+			g.shape("named-pointer:[2]P")
+			inject(reflect.ArrayOf(2, base))
+		default:
+			g.shape("named-pointer:struct{P}")
+			inject(reflect.StructOf([]reflect.StructField{{Name: "X", Type: base}}))
+		}
 	case defInlineMap:
 		switch r.Intn(6) {
 		case 0, 1, 2: // the top-level struct itself
@@ -725,11 +895,13 @@ func typeStats(t reflect.Type, fields, containers *int, seen int) {
 // value generator
 
 type vgen struct {
-	r      *rand.Rand
-	res    *harness.R
-	defect int
-	force  bool // no nil pointers / empty collections (below an injected field)
-	zero   bool // the zero value, except that list elements are never nil (outside the quantifier)
+	r       *rand.Rand
+	res     *harness.R
+	dotKeys bool // map keys may contain '.' (the value is then round-tripped without PathSep only)
+	dotKey  bool // ... and one does
+	defect  int
+	force   bool // no nil pointers / empty collections (below an injected field)
+	zero    bool // the zero value, except that list elements are never nil (outside the quantifier)
 }
 
 func (g *vgen) class(s string) { g.res.SetAdd("value_class", s) }
@@ -737,6 +909,18 @@ func (g *vgen) class(s string) { g.res.SetAdd("value_class", s) }
 var strs = []string{"", "x", "${a}", "a.b", "1,2", "[x]", "{y:1}", "$$", "true", "007", " sp ", "ünï", "null", "${", "a:b", "%{x}", "line\nbreak"}
 var regexps = []string{"", "a.*b", "^x$", "[0-9]+", `\$\{a\}`, "a,b|c.d"}
 var mapKeys = []string{"k", "j", "kk", "Kx", "a$b", "x,y", "{z}", "ünï", " s p", "", "[w]", "k-1", "_", "${k}"}
+var dotKeys = []string{"a.b", ".x", "y.", "1.5", "..", "k.0"}
+
+// key draws a map key.
+func (g *vgen) key() string {
+	if g.dotKeys && g.r.Intn(8) == 0 {
+		g.dotKey = true
+		g.class("map-key:contains-dot")
+		return dotKeys[g.r.Intn(len(dotKeys))]
+	}
+	return mapKeys[g.r.Intn(len(mapKeys))]
+}
+
 var durations = []int64{0, 1, -1, int64(time.Hour), int64(90 * time.Second), math.MaxInt64, math.MinInt64, 1500, int64(36*time.Hour + 7*time.Millisecond), -int64(time.Microsecond)}
 
 func kindName(t reflect.Type) string {
@@ -745,6 +929,8 @@ func kindName(t reflect.Type) string {
 		return "duration"
 	case t == tRegexpP:
 		return "regexp"
+	case t == tRegexpV:
+		return "regexp-by-value"
 	case t == tIfc:
 		return "interface"
 	}
@@ -793,7 +979,7 @@ func (g *vgen) ifc(depth int, inColl bool) interface{} {
 		g.class("interface:map")
 		m := map[string]interface{}{}
 		for i, n := 0, r.Intn(3); i < n; i++ {
-			m[mapKeys[r.Intn(len(mapKeys))]] = g.ifc(depth-1, true)
+			m[g.key()] = g.ifc(depth-1, true)
 		}
 		return m
 	default:
@@ -819,7 +1005,7 @@ func (g *vgen) zeroVal(t reflect.Type, inColl bool) reflect.Value {
 		if inColl {
 			p := reflect.New(t.Elem())
 			p.Elem().Set(g.zeroVal(t.Elem(), true))
-			return p
+			return p.Convert(t) // (t may be a named pointer type)
 		}
 	case t.Kind() == reflect.Interface:
 		if inColl {
@@ -832,8 +1018,7 @@ func (g *vgen) zeroVal(t reflect.Type, inColl bool) reflect.Value {
 	case t.Kind() == reflect.Struct:
 		for i := 0; i < t.NumField(); i++ {
 			if f := t.Field(i); f.PkgPath == "" {
-				// (a pointer spelling a namespace other fields spell too is not nil)
-				v.Field(i).Set(g.zeroVal(f.Type, isSpelling(f) && f.Type.Kind() == reflect.Ptr))
+				v.Field(i).Set(g.zeroVal(f.Type, isSpelling(f) && f.Type.Kind() == reflect.Ptr && !nilSpelling(f)))
 			}
 		}
 	}
@@ -877,6 +1062,13 @@ func (g *vgen) val(t reflect.Type, inColl bool) reflect.Value {
 			g.class("regexp:empty")
 		}
 		return reflect.ValueOf(regexp.MustCompile(s))
+	case tRegexpV:
+		if r.Intn(5) == 0 {
+			g.class("regexp-by-value:zero")
+			return v
+		}
+		g.class("regexp-by-value")
+		return reflect.ValueOf(*regexp.MustCompile(regexps[r.Intn(len(regexps))]))
 	}
 	switch t.Kind() {
 	case reflect.Bool:
@@ -905,7 +1097,7 @@ func (g *vgen) val(t reflect.Type, inColl bool) reflect.Value {
 			x = r.Int63()>>(64-bits) - r.Int63()>>(64-bits)
 		}
 		v.SetInt(x)
-	case reflect.Uint, reflect.Uint8, reflect.Uint16, reflect.Uint32, reflect.Uint64:
+	case reflect.Uint, reflect.Uint8, reflect.Uint16, reflect.Uint32, reflect.Uint64, reflect.Uintptr:
 		bits := uint(t.Bits())
 		max := uint64(math.MaxUint64) >> (64 - bits)
 		var x uint64
@@ -965,7 +1157,7 @@ func (g *vgen) val(t reflect.Type, inColl bool) reflect.Value {
 			g.class("ptr:chain-ending-in-nil")
 		}
 		p.Elem().Set(e)
-		return p
+		return p.Convert(t) // (t may be a named pointer type)
 	case reflect.Slice:
 		x := r.Intn(6)
 		if g.force && x < 2 {
@@ -1014,7 +1206,7 @@ func (g *vgen) val(t reflect.Type, inColl bool) reflect.Value {
 			return m
 		}
 		for i, n := 0, 1+r.Intn(3); i < n; i++ {
-			k := mapKeys[r.Intn(len(mapKeys))]
+			k := g.key()
 			m.SetMapIndex(reflect.ValueOf(k).Convert(t.Key()), g.val(t.Elem(), true))
 		}
 		return m
@@ -1032,13 +1224,18 @@ func (g *vgen) val(t reflect.Type, inColl bool) reflect.Value {
 			if f.Name == "Dx" && g.defect != defNone {
 				g.force = true
 			}
-			if isSpelling(f) && f.Type.Kind() == reflect.Ptr {
-				// one of several spellings of a namespace: never a nil pointer
+			switch {
+			case f.Tag.Get(spellKey) == "twin-nil":
+				// the twin of a field of the same name: stays nil
+			case nilSpelling(f) && !g.force && r.Intn(5) == 0:
+				// one of several spellings of a namespace, and nil: it defines nothing
+				g.class("ptr:nil-spelling-of-shared-namespace")
+			case isSpelling(f) && f.Type.Kind() == reflect.Ptr:
 				p := reflect.New(f.Type.Elem())
 				p.Elem().Set(g.val(f.Type.Elem(), false))
 				v.Field(i).Set(p)
 				g.class("ptr:spelling-of-shared-namespace")
-			} else {
+			default:
 				v.Field(i).Set(g.val(f.Type, false))
 			}
 			g.force = saved
@@ -1121,12 +1318,16 @@ func showTo(b *strings.Builder, v reflect.Value, depth int) {
 		fmt.Fprintf(b, "%dns", v.Int())
 		return
 	}
+	if t == tRegexpV {
+		fmt.Fprintf(b, "re-by-value(%q)", regexpVText(v))
+		return
+	}
 	switch v.Kind() {
 	case reflect.Bool:
 		fmt.Fprintf(b, "%v", v.Bool())
 	case reflect.Int, reflect.Int8, reflect.Int16, reflect.Int32, reflect.Int64:
 		fmt.Fprintf(b, "%d", v.Int())
-	case reflect.Uint, reflect.Uint8, reflect.Uint16, reflect.Uint32, reflect.Uint64:
+	case reflect.Uint, reflect.Uint8, reflect.Uint16, reflect.Uint32, reflect.Uint64, reflect.Uintptr:
 		fmt.Fprintf(b, "%d", v.Uint())
 	case reflect.Float32, reflect.Float64:
 		f := v.Float()
@@ -1219,6 +1420,12 @@ func regexpText(v reflect.Value) string {
 	return v.Interface().(*regexp.Regexp).String()
 }
 
+// regexpVText: the source text of a regexp.Regexp held by value.
+func regexpVText(v reflect.Value) string {
+	r := v.Interface().(regexp.Regexp)
+	return r.String()
+}
+
 func clip(s string, n int) string {
 	if len(s) > n {
 		return s[:n] + "...(clipped)"
@@ -1235,12 +1442,20 @@ type comparer struct {
 	sep      bool
 	devs     []deviation
 	inShared int // > 0 while comparing below a namespace spelled by several fields
+	sameName int // > 0 while comparing a field whose name another field of the struct has too
+	oddName  int // > 0 while comparing a field renamed to punctuation or to an option word
 	holders  int
 	settings int // leaf comparisons below such a namespace
 }
 
 // at names the place of a value for the signature.
 func (c *comparer) at(t reflect.Type, parent string) string {
+	if c.oddName > 0 {
+		return kindName(t) + "@odd-name/" + parent
+	}
+	if c.sameName > 0 {
+		return kindName(t) + "@same-name/" + parent
+	}
 	if c.inShared > 0 {
 		return kindName(t) + "@shared-ns/" + parent
 	}
@@ -1251,6 +1466,28 @@ func (c *comparer) add(sig, format string, a ...interface{}) {
 	if len(c.devs) < 6 {
 		c.devs = append(c.devs, deviation{sig, fmt.Sprintf(format, a...)})
 	}
+}
+
+// chainLen counts the non-nil pointers v starts with.
+func chainLen(v reflect.Value) int {
+	n := 0
+	for v.Kind() == reflect.Ptr && !v.IsNil() {
+		n++
+		v = v.Elem()
+	}
+	return n
+}
+
+// inlined: what a field tagged inline stands for. A nil pointer there stands
+// for the zero value (empty map): nothing in the Config could say otherwise.
+func inlined(v reflect.Value) reflect.Value {
+	for v.Kind() == reflect.Ptr {
+		if v.IsNil() {
+			return reflect.Zero(chaseT(v.Type()))
+		}
+		v = v.Elem()
+	}
+	return v
 }
 
 func nilChain(v reflect.Value) bool {
@@ -1299,6 +1536,12 @@ func (c *comparer) eq(a, b reflect.Value, path, parent string, node *nameNode) {
 		}
 		return
 	}
+	if t == tRegexpV {
+		if regexpVText(a) != regexpVText(b) {
+			c.add("value-differs:"+where, "%s: regexp %q came back as %q", path, regexpVText(a), regexpVText(b))
+		}
+		return
+	}
 	switch t.Kind() {
 	case reflect.Bool:
 		if a.Bool() != b.Bool() {
@@ -1308,7 +1551,7 @@ func (c *comparer) eq(a, b reflect.Value, path, parent string, node *nameNode) {
 		if a.Int() != b.Int() {
 			c.add("value-differs:"+where, "%s: %d came back as %d", path, a.Int(), b.Int())
 		}
-	case reflect.Uint, reflect.Uint8, reflect.Uint16, reflect.Uint32, reflect.Uint64:
+	case reflect.Uint, reflect.Uint8, reflect.Uint16, reflect.Uint32, reflect.Uint64, reflect.Uintptr:
 		if a.Uint() != b.Uint() {
 			c.add("value-differs:"+where, "%s: %d came back as %d", path, a.Uint(), b.Uint())
 		}
@@ -1323,7 +1566,14 @@ func (c *comparer) eq(a, b reflect.Value, path, parent string, node *nameNode) {
 	case reflect.Ptr:
 		an, bn := nilChain(a), nilChain(b)
 		if an || bn {
-			if an != bn {
+			switch da, db := chainLen(a), chainLen(b); {
+			case an != bn:
+				c.add("nil-ness-differs:"+where, "%s: source %s, result %s", path, show(a), show(b))
+			case da > 0 && db == 0:
+				// the statement exempts nil pointers as elements of lists and
+				// maps only: a pointer to a nil pointer is not nil
+				c.add("pointer-to-nil-pointer-comes-back-nil", "%s: source %s (%d non-nil levels, then nil), result %s", path, show(a), da, show(b))
+			case da != db:
 				c.add("nil-ness-differs:"+where, "%s: source %s, result %s", path, show(a), show(b))
 			}
 			return
@@ -1414,13 +1664,15 @@ func (c *comparer) names(v reflect.Value, skip int, may, must map[string]bool) {
 		ti := parseTag(f.Tag)
 		switch {
 		case ti.ignore:
-		case ti.inline && f.Type.Kind() == reflect.Struct:
-			c.names(v.Field(i), -1, may, must)
-		case ti.inline && f.Type.Kind() == reflect.Map:
-			for _, k := range v.Field(i).MapKeys() {
+		case ti.inline && chaseT(f.Type).Kind() == reflect.Struct:
+			c.names(inlined(v.Field(i)), -1, may, must)
+		case ti.inline && chaseT(f.Type).Kind() == reflect.Map:
+			for _, k := range inlined(v.Field(i)).MapKeys() {
 				may[k.String()] = true
 				must[k.String()] = true
 			}
+		case ti.inline:
+			// an inlined list: no names
 		default:
 			n := topSeg(cfgName(f, ti), c.sep)
 			may[n] = true
@@ -1465,10 +1717,12 @@ func (c *comparer) structEq(a, b reflect.Value, path string, outer map[string]bo
 			if !b.Field(i).IsZero() {
 				c.add("ignored-field-written", "%s: field tagged ignore is %s in the result (source %s)", fp, clip(show(b.Field(i)), 200), clip(show(a.Field(i)), 200))
 			}
-		case ti.inline && f.Type.Kind() == reflect.Struct:
-			c.structEq(a.Field(i), b.Field(i), fp, sib(), node)
-		case ti.inline && f.Type.Kind() == reflect.Map:
-			c.mapEq(a.Field(i), b.Field(i), fp, "inline", sib())
+		case ti.inline && chaseT(f.Type).Kind() == reflect.Struct:
+			c.structEq(inlined(a.Field(i)), inlined(b.Field(i)), fp, sib(), node)
+		case ti.inline && chaseT(f.Type).Kind() == reflect.Map:
+			c.mapEq(inlined(a.Field(i)), inlined(b.Field(i)), fp, "inline", sib())
+		case ti.inline:
+			c.eq(a.Field(i), b.Field(i), fp, "inline", nil)
 		default:
 			// the namespaces the name of the field leads through, and the one it names
 			n, sh := node, false
@@ -1481,7 +1735,33 @@ func (c *comparer) structEq(a, b reflect.Value, path string, outer map[string]bo
 			if sh {
 				c.inShared++
 			}
-			c.eq(a.Field(i), b.Field(i), fp, "field", n)
+			twin := n != nil && n.leafDefs >= 2
+			if twin {
+				c.sameName++
+			}
+			segs := segments(cfgName(f, ti), c.sep)
+			odd := isOddName(segs[len(segs)-1])
+			if odd {
+				c.oddName++
+			}
+			switch fa, fb := a.Field(i), b.Field(i); {
+			case n.shared() && fa.Kind() == reflect.Ptr && chaseT(f.Type).Kind() == reflect.Struct && nilChain(fa) && !nilChain(fb):
+				// a nil pointer among the spellings of a namespace defines
+				// nothing - and comes back pointing to a struct
+				c.add("nil-pointer-spelling-comes-back-allocated", "%s: source nil, result %s; the other fields spelling the namespace have filled it", fp, clip(show(fb), 300))
+			case twin && fa.Kind() == reflect.Ptr && nilChain(fa) && !nilChain(fb):
+				// Merge has accepted the two fields of one name because this
+				// one is nil - and Unpack reads the other one's value into it
+				c.add("same-name-fields:nil-one-receives-the-others-value", "%s: source nil, result %s; another field of the struct has the same config name and holds that value", fp, clip(show(fb), 300))
+			default:
+				c.eq(fa, fb, fp, "field", n)
+			}
+			if odd {
+				c.oddName--
+			}
+			if twin {
+				c.sameName--
+			}
 			if sh {
 				c.inShared--
 			}
@@ -1506,6 +1786,7 @@ type nameNode struct {
 	ns       bool        // a namespace whose names are all known
 	definers []definer   // the fields spelling this namespace, in declaration order
 	subDefs  int         // how many of them hold a whole sub-namespace (struct or list of structs)
+	leafDefs int         // how many fields name this very setting (not a namespace)
 }
 
 func (n *nameNode) kid(name string) *nameNode {
@@ -1528,6 +1809,30 @@ func (n *nameNode) elem(i int) *nameNode {
 		n.elems[i] = &nameNode{}
 	}
 	return n.elems[i]
+}
+
+// isOddName: a config name without a letter or digit, or one of the words
+// that are options when they follow a comma.
+func isOddName(name string) bool {
+	switch name {
+	case "inline", "squash", "ignore", "merge", "replace", "append", "prepend":
+		return true
+	}
+	for _, ch := range name {
+		if unicode.IsLetter(ch) || unicode.IsDigit(ch) {
+			return false
+		}
+	}
+	return name != ""
+}
+
+func allOdd(names []string) bool {
+	for _, n := range names {
+		if !isOddName(n) {
+			return false
+		}
+	}
+	return len(names) > 0
 }
 
 func segIndex(seg string) (int, bool) {
@@ -1603,14 +1908,18 @@ func (c *comparer) tree(v reflect.Value, node *nameNode, holder int) {
 		switch {
 		case ti.ignore:
 			continue
-		case ti.inline && f.Type.Kind() == reflect.Struct:
-			c.tree(fv, node, holder)
+		case ti.inline && chaseT(f.Type).Kind() == reflect.Struct:
+			if !nilChain(fv) {
+				c.tree(inlined(fv), node, holder)
+			}
 			continue
-		case ti.inline && f.Type.Kind() == reflect.Map:
-			for _, k := range fv.MapKeys() {
+		case ti.inline && chaseT(f.Type).Kind() == reflect.Map:
+			for _, k := range inlined(fv).MapKeys() {
 				node.kid(k.String()).must = true
 			}
 			continue
+		case ti.inline:
+			continue // an inlined list: elements of the namespace itself, no names
 		}
 		isNil := (fv.Kind() == reflect.Ptr && nilChain(fv)) || (fv.Kind() == reflect.Interface && fv.IsNil())
 		segs := segments(cfgName(f, ti), c.sep)
@@ -1629,7 +1938,15 @@ func (c *comparer) tree(v reflect.Value, node *nameNode, holder int) {
 				n.definers = append(n.definers, definer{"dotted", holder})
 			}
 		}
+		if k := chaseT(f.Type).Kind(); (k != reflect.Struct && k != reflect.Map && k != reflect.Interface) || chaseT(f.Type) == tRegexpV {
+			n.leafDefs++
+		}
 		if isNil {
+			if fv.Kind() == reflect.Ptr && chaseT(f.Type).Kind() == reflect.Struct && chaseT(f.Type) != tRegexpV {
+				// spells the namespace by its type, defines nothing by its value
+				n.definers = append(n.definers, definer{"nil-ptr-to-struct", holder})
+				n.subDefs++
+			}
 			continue
 		}
 		cv := chaseV(fv)
@@ -1638,13 +1955,15 @@ func (c *comparer) tree(v reflect.Value, node *nameNode, holder int) {
 			form = "ptr-to-"
 		}
 		switch {
+		case cv.Type() == tRegexpV:
+			// a setting, not a namespace
 		case cv.Kind() == reflect.Struct:
 			c.holders++
 			n.ns = true
 			n.definers = append(n.definers, definer{form + "struct", holder})
 			n.subDefs++
 			c.tree(cv, n, c.holders)
-		case (cv.Kind() == reflect.Array || cv.Kind() == reflect.Slice) && chaseT(cv.Type().Elem()).Kind() == reflect.Struct && cv.Type().Elem() != tRegexpP:
+		case (cv.Kind() == reflect.Array || cv.Kind() == reflect.Slice) && chaseT(cv.Type().Elem()).Kind() == reflect.Struct && cv.Type().Elem() != tRegexpP && chaseT(cv.Type().Elem()) != tRegexpV:
 			d := definer{form + cv.Kind().String(), holder}
 			n.definers = append(n.definers, d)
 			n.subDefs++
@@ -1857,9 +2176,9 @@ func innermost(where string) string {
 func (check) Run(seed int64, tier string, idx int, verbose bool) harness.Result {
 	res := harness.NewR(idx)
 	ti := idx / reuse(tier)
-	tg := &tgen{r: rand.New(rand.NewSource(harness.Mix(seed, "C06type", ti))), forms: map[string]struct{}{}, shapes: map[string]struct{}{}}
+	tg := &tgen{r: rand.New(rand.NewSource(harness.Mix(seed, "C06type", ti))), forms: map[string]struct{}{}, shapes: map[string]struct{}{}, odd: map[string]struct{}{}}
 	if ti%defectEvery == defectEvery-1 {
-		tg.defect = 1 + (ti/defectEvery)%4
+		tg.defect = 1 + (ti/defectEvery)%5
 	}
 	T := tg.topType()
 	r := rand.New(rand.NewSource(harness.Mix(seed, "C06", idx)))
@@ -1870,13 +2189,41 @@ func (check) Run(seed int64, tier string, idx int, verbose bool) harness.Result 
 	for s := range tg.shapes {
 		res.SetAdd("shape", s)
 	}
+	for n := range tg.odd {
+		res.SetAdd("odd_name", n)
+	}
 	shapes(res, T, "top", 0)
 	res.SetAdd("defect_shape", defectNames[tg.defect])
+	for _, d := range []struct {
+		name string
+		has  bool
+	}{
+		{"pointer_chain_to_struct_as_element", shapeProbes[len(shapeProbes)-1].present(T, reflect.Value{})},
+		{"unusual_name", len(tg.odd) > 0},
+		{"punctuation_or_option_word_name", func() bool {
+			for n := range tg.odd {
+				if isOddName(n) {
+					return true
+				}
+			}
+			return false
+		}()},
+		{"uintptr", typeHas(T, func(t reflect.Type) bool { return t.Kind() == reflect.Uintptr }, 0)},
+		{"regexp_by_value", typeHas(T, func(t reflect.Type) bool { return t == tRegexpV }, 0)},
+		{"inline_pointer", fieldHas(T, isInlineKind(reflect.Ptr), 0)},
+		{"inline_list", fieldHas(T, isInlineKind(reflect.Slice, reflect.Array), 0)},
+		{"same_name_fields", fieldHas(T, func(f reflect.StructField, _ tagInfo) bool { return f.Tag.Get(spellKey) == "twin-nil" }, 0)},
+		{"named_pointer_type", typeHas(T, isNamedPtr, 0)},
+	} {
+		if d.has {
+			res.Ev("cases_with_"+d.name, 1)
+		}
+	}
 	var nf, nc int
 	typeStats(T, &nf, &nc, 0)
 
 	for k := 0; k < valuesPerCase; k++ {
-		vg := &vgen{r: r, res: res, defect: tg.defect}
+		vg := &vgen{r: r, res: res, defect: tg.defect, dotKeys: !tg.dotted}
 		v := vg.val(T, false)
 		vs := show(v)
 		if verbose {
@@ -1885,7 +2232,11 @@ func (check) Run(seed int64, tier string, idx int, verbose bool) harness.Result 
 		if idx < 2 && k == 0 {
 			res.Sample = map[string]interface{}{"type": clip(ts, 1500), "value": clip(vs, 1500)}
 		}
-		ok := roundTrip(res, T, v, true, r.Intn(4), "value", ts, vs, verbose)
+		ok := true
+		if e := r.Intn(4); !vg.dotKey {
+			// (with PathSep a map key containing the separator is a path: C05)
+			ok = roundTrip(res, T, v, true, e, "value", ts, vs, verbose)
+		}
 		if !tg.dotted {
 			ok = roundTrip(res, T, v, false, r.Intn(4), "value", ts, vs, verbose) && ok
 		}
@@ -1901,6 +2252,7 @@ func (check) Run(seed int64, tier string, idx int, verbose bool) harness.Result 
 		z := (&vgen{zero: true}).val(T, false)
 		roundTrip(res, T, z, true, 0, "zero-value", ts, show(z), verbose)
 	}
+	noFormProbe(res, r)
 	return res.Done()
 }
 
@@ -1972,11 +2324,24 @@ func roundTrip(res *harness.R, T reflect.Type, v reflect.Value, sep bool, entry 
 	})
 	res.SetAdd("entry", how)
 	if panicked {
-		res.Violate("panic:"+innermost(where), "%s panicked: %q at %s; %s", how, pv, where, witness())
+		sig := "panic:" + innermost(where)
+		if a := attribute(T, v, "merge", true, opts); a != "" {
+			sig = a
+		}
+		res.Violate(sig, "%s panicked: %q at %s; %s", how, pv, where, witness())
 		return false
 	}
 	if err != nil {
-		res.Violate("merge-error:"+reason(err), "%s failed (%s): %s; %s", how, reason(err), clip(message(err), 300), witness())
+		if reason(err) == "ErrDuplicateKey" && fieldHas(T, func(f reflect.StructField, _ tagInfo) bool { return f.Tag.Get(spellKey) == "twin-nil" }, 0) {
+			// two fields of one name: a type Merge may refuse (C09 says when)
+			res.Ev("same_name_fields_refused_as_duplicate_key", 1)
+			return false
+		}
+		sig := "merge-error:" + reason(err)
+		if a := attribute(T, v, "merge", false, opts); a != "" {
+			sig = a
+		}
+		res.Violate(sig, "%s failed (%s): %s; %s", how, reason(err), clip(message(err), 300), witness())
 		return false
 	}
 
@@ -1998,6 +2363,8 @@ func roundTrip(res *harness.R, T reflect.Type, v reflect.Value, sep bool, entry 
 		switch {
 		case d.unreadable != "":
 			res.Violate("config-"+where+"-unreadable", "the Config built from the value has no readable namespace at %q, which the value defines: %s; %s", d.path, clip(d.unreadable, 200), witness())
+		case allOdd(append(append([]string{}, d.absent...), d.unexpected...)):
+			res.Violate("config-names-differ:odd-names-only", "at %q the Config built from the value has the unexpected names %q and lacks %q - all of them punctuation or option words; %s", d.path, d.unexpected, d.absent, witness())
 		case d.depth == 0:
 			res.Violate("config-top-level-names-differ", "the Config built from the value has unexpected top-level names %q and lacks %q; %s", d.unexpected, d.absent, witness())
 		default:
@@ -2026,13 +2393,23 @@ func roundTrip(res *harness.R, T reflect.Type, v reflect.Value, sep bool, entry 
 
 	out := reflect.New(T)
 	res.Eval(1)
-	panicked, pv, where = harness.Safe(func() { err = c.Unpack(out.Interface(), opts...) })
+	unpack := func() {
+		panicked, pv, where = harness.Safe(func() { err = c.Unpack(out.Interface(), opts...) })
+	}
+	if typeHas(T, isNamedPtr, 0) {
+		res.Ev("unpacks_into_named_pointer_types", 1)
+		guardAlloc("unpack-into-named-pointer-type-allocates-without-bound", witness(), unpack)
+	} else {
+		unpack()
+	}
 	if panicked {
 		sig := "panic:" + innermost(where)
 		if alt, ch := rewrite(T, defPtrMapElem, false); ch && unpacksInto(c, alt, opts) {
 			sig = "pointer-to-map-element-panics"
 		} else if alt, ch := rewrite(T, defNamedKey, false); ch && unpacksInto(c, alt, opts) {
 			sig = "named-string-map-key-panics"
+		} else if a := attribute(T, v, "unpack", true, opts); a != "" {
+			sig = a
 		}
 		res.Violate(sig, "Unpack panicked: %q at %s; %s", pv, where, witness())
 		return false
@@ -2041,6 +2418,8 @@ func roundTrip(res *harness.R, T reflect.Type, v reflect.Value, sep bool, entry 
 		sig := "unpack-error:" + reason(err)
 		if alt, ch := rewrite(T, defPtrArray, false); ch && unpacksInto(c, alt, opts) {
 			sig = "nil-pointer-to-array-rejected"
+		} else if a := attribute(T, v, "unpack", false, opts); a != "" {
+			sig = a
 		} else if len(diffs) > 0 {
 			// the Config did not hold what the value defines in the first place
 			sig += "/config-names-differed"
